@@ -75,6 +75,22 @@ theorem c13_tilde_location_pinned :
     dirOfPinned "/w" ⟨"make", some "~/suite"⟩ = "~/suite" ∧
     dirOf "/w" "/root" ⟨"make", some "~/suite"⟩ = "/root/suite" := by decide
 
+/-- "with the run's configured environment": the environment of a run is what the innermost
+of the seven levels (machine, runs, experiment, execution details, executor, suite,
+benchmark) that defines `env` says — an inner level replaces the outer ones, a level that
+does not define it leaves them in force. Together with `c13_build_env_cwd` (the build gets
+the triggering run's `env`) this is the environment clause of the property. -/
+theorem c13_env_priority (levels : List (Option Env)) (e : Env) :
+    lastDefined (levels ++ [some e]) = some e ∧
+    lastDefined (levels ++ [none]) = lastDefined levels := by
+  induction levels with
+  | nil => exact ⟨rfl, rfl⟩
+  | cons l ls ih => simp [lastDefined, ih.1, ih.2]
+
+/-- the benchmark's own `env` wins over suite and executor, and `~` in a value is expanded -/
+example : (mkRun "/w" 0 ⟨"E", none, [], some [("A", "e")]⟩ ⟨"S", none, ["make"], some [("A", "s")]⟩ 1 true 0 "/root"
+    [some [("A", "m")], none, none, none] (some [("A", "~/b")])).env = [("A", "/root/b")] := by decide
+
 /-- "If it fails, no run depending on it is executed and each is reported failed":
 once a build has ended unsuccessfully (non-zero return code or OSError), no benchmark
 process of a dependent run has been or will be started in the session, so every
